@@ -325,6 +325,105 @@ class Tree:
         return "D %d %s" % (len(kids), " ".join(kids))
 
 
+# ------------------------------------------------------------------------------------------------------
+# namespace fix-up: API-built trees with namespaceURI/prefix set, declarations missing, prefixes rebound at inner
+# levels, attributes in namespaces of outer bindings, default namespace undeclared / redeclared
+# ------------------------------------------------------------------------------------------------------
+XMLNS_URI = "http://www.w3.org/2000/xmlns/"
+NS_URIS = ["urn:u1", "urn:u2", "urn:u3"]
+
+
+class NsTree:
+    def __init__(self, rng):
+        self.rng = rng
+        self.f50 = self.f51 = self.f52 = self.f53 = False
+        self.nelem = 0
+        self.rebound = False
+
+    def element(self, depth, dflt, under_undecl, scope):
+        """dflt: default namespace in scope per the tree's own names/declarations; scope: prefix -> uri as intended"""
+        rng = self.rng
+        self.nelem += 1
+        uri = None if rng.random() < 0.25 else rng.choice(NS_URIS)
+        pref = "" if uri is None else rng.choice(["", "p", "p", "q"])
+        local = rng.choice("abc") + str(self.nelem)
+        attrs = []                       # (uri|None, qname, value)
+        need = {}                        # prefix -> set of URIs this element requires / declares
+        explicit_self = False
+        scope = dict(scope)
+        if uri is not None:
+            need.setdefault(pref, set()).add(uri)
+            if scope.get(pref) not in (None, uri):
+                self.rebound = True
+            if rng.random() < 0.45:
+                explicit_self = True
+                attrs.append((XMLNS_URI, "xmlns:" + pref if pref else "xmlns", uri))
+            scope[pref] = uri
+            if pref == "":
+                if under_undecl and not explicit_self:
+                    self.f50 = True
+                dflt = uri
+        else:
+            need.setdefault("", set()).add("")
+            if dflt:
+                under_undecl = True
+            if rng.random() < 0.2:
+                attrs.append((XMLNS_URI, "xmlns", ""))
+            dflt = None
+            scope[""] = None
+        if rng.random() < 0.15:          # a declaration for the benefit of descendants, possibly rebinding
+            dp, du = rng.choice(["p", "q"]), rng.choice(NS_URIS)
+            if not any(a[1] == "xmlns:" + dp for a in attrs):
+                attrs.append((XMLNS_URI, "xmlns:" + dp, du))
+                need.setdefault(dp, set()).add(du)
+                scope[dp] = du
+        seen_q, seen_l = set(a[1] for a in attrs), set()
+        for _ in range(rng.choice([0, 1, 1, 2])):
+            au = None if rng.random() < 0.35 else rng.choice(NS_URIS)
+            ap = "" if au is None else rng.choice(["", "p", "p", "q"])
+            al = rng.choice(["k", "m"])
+            qn = (ap + ":" if ap else "") + al
+            if qn in seen_q or (au, al) in seen_l:
+                continue
+            seen_q.add(qn)
+            seen_l.add((au, al))
+            attrs.append((au, qn, "v" + str(len(attrs))))
+            if au is not None:
+                if ap == "":
+                    self.f52 = True
+                else:
+                    need.setdefault(ap, set()).add(au)
+                if au == dflt:
+                    self.f53 = True      # the attribute's namespace is the default namespace in scope
+        if any(len(v) > 1 for v in need.values()):
+            self.f51 = True
+        kids = []
+        if depth < 3:
+            for _ in range(rng.choice([0, 1, 1, 2])):
+                if rng.random() < 0.2 and (not kids or not kids[-1].startswith("T ")):
+                    kids.append("T 0074")
+                else:
+                    kids.append(self.element(depth + 1, dflt, under_undecl, scope))
+        toks = ["E", HS(uri) if uri else "-", HS((pref + ":" if pref else "") + local), str(len(attrs))]
+        for au, qn, v in attrs:
+            toks += [HS(au) if au else "-", HS(qn), HS(v)]
+        toks += [str(len(kids))] + kids
+        return " ".join(toks)
+
+
+def gen_ns_cases(ctx):
+    rng = ctx.rng
+    out = []
+    for _ in range(1500 if ctx.tier == "quick" else 20000):
+        t = NsTree(rng)
+        body = "D 1 " + t.element(0, None, False, {})
+        x = rng.choice([0, 1])
+        for z in (0, 1):
+            out.append((t, z, "doc utf8 x%ds1d1b0n1z%d 10 %s" % (x, z, body)))
+    return out
+
+
+
 def valid_units(units, ver11, production=False):
     """units that ensureValidString accepts: XML 1.0 Chars; for XML 1.1 the characters that may appear literally
     (Char minus RestrictedChar).  production=True: the Char production of XML 1.1 itself."""
@@ -437,6 +536,14 @@ WITNESS = {
     "F49": "doc koi8r x1s1 10 D 1 " + E("r", [], ["T " + HS("a\U0001F600b")]),
     "F50": "doc utf8 x1s1n1 10 D 1 E %s %s 1 %s %s %s 1 E - %s 0 1 E %s %s 0 0" % (
         HS("urn:b"), HS("r"), HS("http://www.w3.org/2000/xmlns/"), HS("xmlns"), HS("urn:b"), HS("x"), HS("urn:b"), HS("y")),
+    "F51": "doc utf8 x0s1n1z0 10 D 1 E %s %s 1 %s %s %s 0" % (HS("urn:u2"), HS("p:x"), HS("urn:u1"), HS("p:a"), HS("v")),
+    "F52": "doc utf8 x0s1n1z0 10 D 1 E - %s 1 %s %s %s 0" % (HS("r"), HS("urn:u1"), HS("a"), HS("v")),
+    "F53": "doc utf8 x0s1n1z1 10 D 1 E %s %s 1 %s %s %s 0" % (HS("urn:u1"), HS("r"), HS("urn:u1"), HS("a"), HS("v")),
+    "F54": "doc utf8 x0s1n1z1 10 D 1 E %s %s 2 %s %s %s %s %s %s 1 E %s %s 2 %s %s %s %s %s %s 0" % (
+        HS("urn:u3"), HS("p:r"), HS("http://www.w3.org/2000/xmlns/"), HS("xmlns:p"), HS("urn:u3"),
+        HS("http://www.w3.org/2000/xmlns/"), HS("xmlns:q"), HS("urn:u3"),
+        HS("urn:u1"), HS("p:x"), HS("http://www.w3.org/2000/xmlns/"), HS("xmlns:p"), HS("urn:u1"),
+        HS("http://www.w3.org/2000/xmlns/"), HS("xmlns:q"), HS("urn:u2")),
     "F46": "doc win1252 x1s1 10 D 1 " + E("r", [], ["T " + HS("a\uFF1Cb\uFF1E")]),
     "F44": "fmt utf8 3 1 10 " + H([0x61, 0xD800]),
 }
@@ -506,6 +613,9 @@ def run(ctx):
         if req.startswith("doc") or req.startswith("src"):
             a = parse_doc_answer(impl[0]) if impl else {}
             good = a.get("ser") == "ok" and a.get("reparse") == "ok" and a.get("eq") in ("1", "merged") and a.get("idem") == "1"
+            if r.get("expect") == "nsfixup":
+                good = (a.get("ser") == "ok" and a.get("reparse") == "ok" and a.get("res") == "1" and
+                        a.get("eq") in ("1", "nsdecl") and a.get("idem") in ("1", "reordered"))
             reported = a.get("ser", "ok") != "ok"
             if not good and not (reported and r.get("expect") == "error"):
                 ctx.violation("replay", dict(r, impl=impl[0] if impl else None))
@@ -584,26 +694,22 @@ def run(ctx):
                        "processing-instruction data containing '?>' is emitted verbatim without any DOMError; the "
                        "output re-parses to a different tree (witness: PI data 'a?>b')",
                        {"request": WITNESS["F41"], "impl": W["F41"][:800], "what": "PI data with ?> emitted"})
-    a = parse_doc_answer(W["F45"])
-    known_or_violation("F45", a.get("ser") == "ok" and a.get("reparse") != "ok",
-                       "an attribute name with a character the encoding cannot represent is written with a character "
-                       "reference inside the name (ill-formed) instead of being reported (witness: attribute k+U+03A9 "
-                       "in ISO-8859-1)",
-                       {"request": WITNESS["F45"], "impl": W["F45"][:800], "what": "char ref inside attribute name"})
+    fixed_or_violation("F45", "an attribute name with a character the encoding cannot represent is written with a character "
+                       "reference inside the name (ill-formed) instead of being reported; repair: "
+                       "fixes/C12-attrname-unrep.patch", lambda a: a.get("ser", "ok") != "ok" and "F" in a.get("errs", ""),
+                       expect_error=True)
+    fixed_or_violation("F48", "XML 1.1: text / attribute values containing a RestrictedChar are refused by ensureValidString "
+                       "although XMLFormatter writes them as references; repair: fixes/C12-xml11-restricted.patch",
+                       lambda a: doc_good(a))
+    fixed_or_violation("F50", "namespace fix-up records xmlns=\"\" with a null URI: a descendant in the outer default "
+                       "namespace loses its declaration; repair: fixes/C12-nsfixup-default.patch",
+                       lambda a: doc_good(a, ("1", "nsdecl")) and a.get("res") == "1")
     a = parse_doc_answer(W["F47"])
     known_or_violation("F47", a.get("ser") == "ok" and a.get("reparse") == "ok" and a.get("eq") == "0",
                        "a CR (XML 1.1: also NEL, LSEP) inside a CDATA section, a comment or PI data is written "
                        "literally (no reference is possible there, no DOMError is raised, a CDATA section is not "
                        "split around it) and re-parses as LF (witness: CDATA 'a CR b', comment 'c CR d')",
                        {"request": WITNESS["F47"], "impl": W["F47"][:800], "what": "CR in CDATA/comment becomes LF"})
-    a = parse_doc_answer(W["F48"])
-    known_or_violation("F48", a.get("ser", "ok") != "ok",
-                       "in an XML 1.1 document, text or an attribute value containing a RestrictedChar (U+0001..U+001F "
-                       "except TAB/LF/CR, U+007F..U+009F except NEL) cannot be serialised: ensureValidString raises a "
-                       "fatal INVALID_CHARACTER_ERR although XMLFormatter would write the reference &#x..; that XML 1.1 "
-                       "allows (witness: attribute 'a U+0001', text 'b U+0086 c'; a document parsed from &#x1; cannot "
-                       "be written back)",
-                       {"request": WITNESS["F48"], "impl": W["F48"][:800], "what": "XML 1.1 RestrictedChar rejected"})
     a = parse_doc_answer(W["F49"])
     known_or_violation("F49", a.get("ser") == "ok" and a.get("reparse") != "ok",
                        "with an ICU-provided output encoding (KOI8-R) a supplementary character is written as a "
@@ -611,13 +717,33 @@ def run(ctx):
                        "canTranscodeTo is asked about single UTF-16 units); ICU encodings are therefore excluded from "
                        "the generated document configurations",
                        {"request": WITNESS["F49"], "impl": W["F49"][:800], "what": "lone surrogate reference (ICU encoding)"})
-    a = parse_doc_answer(W["F50"])
-    known_or_violation("F50", a.get("ser") == "ok" and a.get("reparse") == "ok" and a.get("eq") == "0",
-                       "namespace fix-up: the xmlns=\"\" that the serializer supplies for an unprefixed element in no "
-                       "namespace is recorded with a null URI, which isNamespaceBindingActive skips; an unprefixed "
-                       "descendant in the outer default namespace is then written without its declaration and "
-                       "re-parses into no namespace (witness: r{urn:b} > x{} > y{urn:b}, only r declared)",
-                       {"request": WITNESS["F50"], "impl": W["F50"][:1200], "what": "needed xmlns declaration not supplied"})
+    a = parse_doc_answer(W["F51"])
+    known_or_violation("F51", a.get("ser") == "ok" and a.get("reparse") != "ok",
+                       "DOMLSSerializer's own namespace fix-up: when an element and one of its attributes (or two "
+                       "attributes) use the same prefix for different namespaces and carry no xmlns attributes, the "
+                       "prefix is declared twice on the element (witness: p:x{urn:u2} with attribute p:a{urn:u1} -> "
+                       "xmlns:p twice): ill-formed output; normalizeDocument() resolves this case with an NSn prefix",
+                       {"request": WITNESS["F51"], "impl": W["F51"][:800], "what": "duplicate xmlns declaration"})
+    a = parse_doc_answer(W["F52"])
+    known_or_violation("F52", a.get("ser") == "ok" and a.get("reparse") == "ok" and a.get("res") == "0",
+                       "DOMLSSerializer's own namespace fix-up ignores an attribute that has a namespace but no prefix: "
+                       "it is written unprefixed and re-parses into no namespace (witness: attribute a{urn:u1} without "
+                       "prefix); normalizeDocument() gives it a prefix",
+                       {"request": WITNESS["F52"], "impl": W["F52"][:800], "what": "attribute namespace lost"})
+    a = parse_doc_answer(W["F53"])
+    known_or_violation("F53", a.get("norm") == "ok" and a.get("ser") == "ok" and (a.get("reparse") != "ok" or a.get("res") == "0"),
+                       "DOMNormalizer::namespaceFixUp gives an attribute the prefix InScopeNamespaces::getPrefix(uri) "
+                       "returns even when that is the empty (default) prefix: the attribute becomes unprefixed and "
+                       "re-parses into no namespace, or collides with an attribute of the same local name (witness: "
+                       "r{urn:u1} unprefixed with attribute a{urn:u1} without prefix, normalizeDocument, serialise)",
+                       {"request": WITNESS["F53"], "impl": W["F53"][:800], "what": "attribute given the default prefix"})
+    a = parse_doc_answer(W["F54"])
+    known_or_violation("F54", "NoSuchElementException" in a.get("norm", ""),
+                       "DOMNormalizer::InScopeNamespaces::Scope::addOrChangeBinding keeps one prefix per URI; when two "
+                       "prefixes bound to the same URI are both rebound, the second removeKey(oldUri) throws "
+                       "NoSuchElementException out of normalizeDocument(), leaving the tree half fixed (witness: "
+                       "xmlns:p = xmlns:q = urn:u3 on the root, both rebound on the child)",
+                       {"request": WITNESS["F54"], "impl": W["F54"][:800], "what": "normalizeDocument throws"})
     a = parse_doc_answer(W["F46"])
     known_or_violation("F46", a.get("ser") == "ok" and (a.get("reparse") != "ok" or a.get("eq") == "0"),
                        "the Windows-1252 / IBM037 / IBM1047 / IBM1140 to-tables contain best-fit entries (U+FF01..U+FF5E "
@@ -907,9 +1033,11 @@ def run(ctx):
                 # emitted something that is ill-formed or different, without an error: attribute to the known classes
                 KNOWN_CLASS = {"comment-dashes": "F40", "pi-data": "F41", "attrname-unrepresentable": "F45",
                                "lineend-in-cdata": "F47", "lineend-in-comment": "F47", "lineend-in-pi": "F47"}
-                if all(r in KNOWN_CLASS and ctx.find_known(KNOWN_CLASS[r]) for r in reasons):
+                # (an XML 1.1 RestrictedChar in text/attribute values is no obstacle by itself: it is written as a reference)
+                rs = [r for r in reasons if r != "restricted11"]
+                if rs and all(r in KNOWN_CLASS and ctx.find_known(KNOWN_CLASS[r]) for r in rs):
                     stats["known-class"] += 1
-                    for cls in sorted(set(KNOWN_CLASS[r] for r in reasons)):
+                    for cls in sorted(set(KNOWN_CLASS[r] for r in rs)):
                         known_hits[cls] = known_hits.get(cls, 0) + 1
                 else:
                     violation("spec", {"request": req[:6000], "impl": ans[:3000], "reasons": reasons, "expect": "error",
@@ -924,6 +1052,59 @@ def run(ctx):
     for k in (0, len(dcases) // 2):
         ctx.sample({"kind": "doc", "request": dcases[k][3][:400], "impl": dimpl[k][:400]})
     ctx.sample({"kind": "fmt", "request": lines[-1][:200], "impl": impl[-1][:200], "model": model[-1][:200]})
+
+    # ---------------------------------------------------------------------------------------------
+    # 3. namespace fix-up on API-built trees: (a) DOMLSSerializer's own fix-up, (b) normalizeDocument() first
+    # ---------------------------------------------------------------------------------------------
+    t2 = time.time()
+    ncases = gen_ns_cases(ctx)
+    nlines = [c[2] for c in ncases]
+    rc1, nimpl, err1 = run_bin(xh, nlines, restart_on_hang=True)
+    if rc1 != 0 or len(nimpl) != len(nlines):
+        ctx.violation("harness-crash", {"what": "implementation harness crashed or lost lines (namespace fix-up)", "rc": rc1,
+                                        "stderr": err1[-2000:], "answered": len(nimpl), "asked": len(nlines),
+                                        "request": nlines[len(nimpl)][:3000] if len(nimpl) < len(nlines) else None})
+        return
+    nstats = {"serializer-fixup-ok": 0, "normalizeDocument-ok": 0, "reordered": 0, "known-class": 0, "rebound-prefix": 0}
+    nknown = {}
+    for (t, z, req), ans in zip(ncases, nimpl):
+        ctx.count()
+        if t.nelem > 1:
+            ctx.distinct(req)
+        if t.rebound:
+            nstats["rebound-prefix"] += 1
+        a = parse_doc_answer(ans)
+        good = (a.get("ser") == "ok" and a.get("reparse") == "ok" and a.get("res") == "1" and
+                a.get("eq") in ("1", "nsdecl") and a.get("idem") in (("1", "reordered") if z else ("1",)))
+        if z:
+            good = good and a.get("norm") == "ok"
+        if good:
+            nstats["normalizeDocument-ok" if z else "serializer-fixup-ok"] += 1
+            if a.get("idem") == "reordered":
+                nstats["reordered"] += 1
+            continue
+        if not z:
+            # the serializer's own fix-up has three known gaps; a failing tree must show one of them
+            cls = [f for f, on in (("F50", t.f50), ("F51", t.f51), ("F52", t.f52)) if on and ctx.find_known(f)]
+        elif "NoSuchElementException" in a.get("norm", ""):
+            cls = ["F54"] if ctx.find_known("F54") else []
+        else:
+            cls = ["F53"] if (t.f53 and ctx.find_known("F53") and a.get("norm") == "ok") else []
+        if cls and a.get("ser") == "ok":
+            nstats["known-class"] += 1
+            for f in cls:
+                nknown[f] = nknown.get(f, 0) + 1
+            continue
+        violation("spec", {"request": req[:6000], "impl": ans[:3000], "route": "normalizeDocument" if z else "serializer",
+                           "expect": "nsfixup",
+                           "what": "namespace fix-up: output ill-formed, or an element/attribute no longer resolves to its "
+                                   "(namespaceURI, localName), or the second serialisation differs"})
+    for cls, n in sorted(nknown.items()):
+        ctx.known_hits = [h + (" ; %d namespace trees of this class" % n if h.startswith(cls + ":") else "")
+                          for h in ctx.known_hits]
+    ctx.coverage["namespace_fixup"] = dict(nstats, cases=len(nlines))
+    ctx.coverage["traces_validated_against_impl"] += len(nlines)
+    ctx.note("namespace fix-up: %d cases, %s, %.1fs" % (len(nlines), nstats, time.time() - t2))
 
     if proof_broken and not ctx.violations:
         ctx.violation("obligation", {"what": "Coq obligation no longer checks and no failing input was found by the "
